@@ -131,3 +131,10 @@ Qed.
 
 Lemma Qcinv_pos x : 0 < x -> 0 < / x.
 Proof. intros H. unfold Qclt. rewrite this_inv. apply Qinv_lt_0_compat. exact H. Qed.
+
+Lemma prodQ_cons a l : prodQ (a :: l) = a * prodQ l.
+Proof. reflexivity. Qed.
+Lemma sumQ_cons a l : sumQ (a :: l) = a + sumQ l.
+Proof. reflexivity. Qed.
+Lemma sumQ_nil : sumQ [] = 0.
+Proof. reflexivity. Qed.
